@@ -6,7 +6,7 @@ work on the same structure:
   program = {"vars": [name...], "inputs": [name...], "outputs": [[name, dtype]...],
              "defs": [[name, body]...], "main": body}
   body    = [node...]
-  node    = ["lit", n] | ["w", word]                       (generic builtin)
+  node    = ["lit", n] | ["lit", n, "x"|"X"] (hexadecimal spelling) | ["w", word]   (generic builtin)
           | ["if", body] | ["ifelse", body, body]
           | ["do", body] | ["+do", body]                   (do ... loop / do ... +loop)
           | ["until", body] | ["again", body] | ["while", pre, post]
@@ -719,7 +719,8 @@ def render_body(body, sep=" "):
     for node in body:
         k = node[0]
         if k == "lit":
-            parts.append(str(node[1]))
+            # a third item asks for the hexadecimal spelling (same number, other branch of the parser)
+            parts.append(("0x%x" if node[2] == "x" else "0x%X") % node[1] if len(node) > 2 and node[1] >= 0 else str(node[1]))
         elif k == "w":
             parts.append(node[1])
         elif k == "if":
